@@ -188,7 +188,10 @@ def run_case(case):
     tl = torch.tensor(dl, dtype=tdt) if case['low'] == 'present' else _absent(case['low'], tdt)
     th = [lay(torch.tensor(h, dtype=tdt)) if k == 'present' else _absent(k, tdt) for h, k in zip(dh, case['highs'])]
     snap = list(th)
+    copies = [None if t is None else t.clone() for t in [tl] + th]
     ok, out = lib(inv, (tl, th))
+    if ok and any(c_ is not None and not torch.equal(t_, c_) for t_, c_ in zip([tl] + snap, copies)):
+        r.fail('mutated_argument', 'a coefficient tensor passed in was modified by the inverse')
 
     def mismatch(what, msg):
         if amb and core.kf_open('KF-D9-ambiguous', ID):
